@@ -16,7 +16,7 @@ EXPLANATION = ("H1 panic-source cone over the MIR call graph (resolved callees, 
                "leaves the driver loop with Err (dropping all reply senders): with the answer of the transport's stream fixed to Some(Err(e)) the select! hands it to the response arm and every path of the arm on it returns Err; H5 a frame that has arrived completely is delivered or rejected, "
                "never awaited: the frame decoder's path rules (shared with C06 G1 / G2) and, in the default and the gssapi configuration, "
                "Decoder::decode on a connection without a security layer answers what the frame decoder answers - a test of its own may say "
-               "Ok(None) only for buffers too short to hold any complete element (rules/wrapper.py); H7 (C04 L6) the one-operation driver hands the connection back, and so stops decoding, only after the pending operation was answered; H8 what is and is not an LDAPMessage envelope: the frame decoder interpreted exactly on literal element trees - a well-formed envelope (universal constructed SEQUENCE of messageID 0..maxInt, protocolOp, controls [0] OPTIONAL) is delivered with the ID and operation it holds, each single-field mutation (class, tag number or form of the outer element; an element in front of the message ID; the ID missing, of another class / tag / form, empty, negative or too wide; a primitive controls element) is answered with an error.  Not decided: memory exhaustion on huge announced lengths; "
+               "Ok(None) only for buffers too short to hold any complete element (rules/wrapper.py); H7 (C04 L6) the one-operation driver hands the connection back, and so stops decoding, only after the pending operation was answered; H8 what is and is not an LDAPMessage envelope: the frame decoder interpreted exactly on element trees (rules/envelope.py) - a well-formed envelope (universal constructed SEQUENCE of messageID 0..maxInt, protocolOp, controls [0] OPTIONAL; without, with an empty, with one, two and any controls, for any protocolOp and any ID content) is delivered with the ID, the operation and the controls it holds, each single-field mutation (class, tag number or form of the outer element; an element in front of the message ID; the ID missing, of another class / tag / form, empty, negative or too wide; a primitive, second or misplaced controls element; another element after the operation) is answered with an error, and the control-list decoder is only ever handed a constructed element (H6).  Not decided: memory exhaustion on huge announced lengths; "
                "panics inside external crates beyond the may-panic table.")
 TRUSTED = ['the frozen may-panic classification of external callees (listed in the evidence)', 'reviewed triage table rules/triage/C11.tsv']
 UNDECIDED = ['allocation size / memory exhaustion', 'panics inside external crates not marked #[track_caller] and not in the may-panic table',
@@ -31,7 +31,7 @@ SHARED = [('C01', ('R1.envelope-path', 'R1.decoder'), 'H6.guards-of-reviewed-sou
           # whatever follows on the wire is never decoded, the decoding error is never raised and the pending operation neither
           # observes it nor ends.  C04 L6 decides, on the paths of the arms, that the connection is handed back only after a reply was
           # delivered to the operation registered under the decoded ID
-          ('C04', ('L6.',), 'H7.driver-reads-on-until-the-pending-operation-is-answered')]      # H6: two panic sources are reviewed as infeasible because the frame decoder guards them (only a constructed [0] reaches the control-list decoder; only Tag::StructureTag leaves the decoder): those guards are re-decided on every run
+          ('C04', ('L6.',), 'H7.driver-reads-on-until-the-pending-operation-is-answered')]      # H6: two panic sources are reviewed as infeasible because the frame decoder guards them (only a constructed [0] reaches the control-list decoder: decided on the envelope trees, see check_envelope_shape; only Tag::StructureTag leaves the decoder: C01 R1.envelope-path, on every success path): those guards are re-decided on every run
 
 QUICK_CONFIGS = ['default', 'gssapi']      # the decoder has a second form with the gssapi feature (the SASL token layer around the frame decoder): a frame that is awaited forever there wedges the connection just the same
 
@@ -44,83 +44,19 @@ def decoder_entry(f):
 
 def check_envelope_shape(ctx, f, dp):
     """H8 "input that is not a well-formed LDAPMessage envelope ends the connection with a decoding error": what the frame decoder
-    makes of an element the TLV parser hands it is decided by exact interpretation of the decoder on literal trees - the parser's
-    answer fixed to one tree at a time, the accessors of the tree type (match_class / match_id / expect_*) and the unsigned
-    reader inlined, the element vector tracked exactly.  The trees are a well-formed envelope (RFC 4511 4.1.1: a universal
-    constructed SEQUENCE of messageID INTEGER (0..maxInt), protocolOp, controls [0] OPTIONAL) and its single-field mutations: the
-    outer element's class, tag number and form; an element in front of the message ID; the message ID missing, of another class,
-    tag or form, empty, negative or too wide; a primitive controls element.  A well-formed envelope must be delivered with the ID
-    and the operation element it holds; every mutation must be answered with an error - not delivered, not answered with
-    "need more" (the frame is complete), not a panic."""
-    B = hirq.Body(f, f.hir[dp])
-    ST = 'lber::structure::StructureTag'
-    def prim(cls, id_, octs):
-        return ('struct', ST, (('class', ('ctor', 'TagClass::' + cls, ())), ('id', ('lit', id_)), ('payload', ('ctor', 'PL::P', (('lit', octs),)))), None)
-    def cons(cls, id_, kids):
-        return ('struct', ST, (('class', ('ctor', 'TagClass::' + cls, ())), ('id', ('lit', id_)), ('payload', ('ctor', 'PL::C', (('vec', tuple(kids)),)))), None)
-    ID = lambda octs=b'\x05': prim('Universal', 2, octs)
-    OP = cons('Application', 1, [prim('Universal', 10, b'\x00'), prim('Universal', 4, b''), prim('Universal', 4, b'')])
-    CT = cons('Context', 0, [])
-    X = prim('Universal', 4, b'A')
-    env = lambda kids, cls='Universal', id_=16: cons(cls, id_, kids)
-    good = [('id, op', env([ID(), OP]), 5, False), ('id, op, controls', env([ID(), OP, CT]), 5, True),
-            ('id 0', env([ID(b'\x00'), OP]), 0, False), ('id 128 (00 80)', env([ID(b'\x00\x80'), OP]), 128, False),
-            ('id maxInt', env([ID(b'\x7f\xff\xff\xff'), OP]), 2147483647, False)]
-    bad = [('outer element of class %s' % c, env([ID(), OP], cls=c)) for c in ('Application', 'Context', 'Private')] + \
-          [('outer element with tag number %d' % n, env([ID(), OP], id_=n)) for n in (17, 0, 2, 30)] + \
-          [('primitive outer element', prim('Universal', 16, b'\x02\x01\x05')),
-           ('no elements', env([])), ('message ID only', env([ID()])), ('operation only', env([OP])),
-           ('an OCTET STRING in front of the message ID', env([X, ID(), OP])), ('an OCTET STRING in front of the message ID, with controls', env([X, ID(), OP, CT])),
-           ('a second INTEGER in front of the message ID', env([ID(b'\x07'), ID(), OP])),
-           ('message ID after the operation', env([OP, ID()])),
-           ('message ID of class Context', env([prim('Context', 2, b'\x05'), OP])), ('message ID of class Application', env([prim('Application', 2, b'\x05'), OP])),
-           ('message ID tagged ENUMERATED', env([prim('Universal', 10, b'\x05'), OP])), ('message ID tagged OCTET STRING', env([prim('Universal', 4, b'\x05'), OP])),
-           ('constructed message ID', env([cons('Universal', 2, []), OP])),
-           ('message ID without content octets', env([ID(b''), OP])), ('negative message ID (80)', env([ID(b'\x80'), OP])),
-           ('message ID 2^31', env([ID(b'\x00\x80\x00\x00\x00'), OP])), ('message ID of nine octets', env([ID(b'\x01' + b'\x00' * 8), OP])),
-           ('primitive controls element', env([ID(), OP, prim('Context', 0, b'')]))]
-    inl = lambda c: c.startswith('lber::structure::') or c.startswith('<lber::structure::') or c.startswith('lber::common::') or c == 'lber::parse::parse_uint'
-    def decide(tree):
-        def parsed(I, cal, args, node, st):
-            if cal == 'lber::parse::Parser::parse':
-                return [absx.Out('val', ('ctor', 'Ok', (('tuple', (('lit', b''), tree)),)), st)]
-            return None
-        outs = [o for o in absx.Interp(f, B, summaries=[parsed], unroll=8, inline=inl, combinators=True, places=True, local_try=True).run() if o.kind in ('val', 'ret', 'div', 'loop')]
-        if len(outs) != 1:
-            return ('?', 'outcomes %s' % sorted(o.kind for o in outs))
-        o = outs[0]
-        if o.kind == 'div':
-            return ('panic', '')
-        v = o.val
-        while v[0] == 'tryerr':
-            v = ('ctor', 'Err', (v[1],)) if not (v[1][0] == 'ctor' and v[1][1] == 'Err') else v[1]
-        if v[0] == 'ctor' and v[1] == 'Err':
-            return ('error', '')
-        if v == ('ctor', 'Ok', (('ctor', 'None', ()),)):
-            return ('need-more', '')
-        if v[0] == 'ctor' and v[1] == 'Ok' and v[2][0][0] == 'ctor' and v[2][0][1] == 'Some' and v[2][0][2][0][0] == 'tuple':
-            idt, rest = v[2][0][2][0][1]
-            opt = rest[1][0] if rest[0] == 'tuple' else None
-            if opt is not None and opt[0] == 'ctor' and opt[1] == 'Tag::StructureTag':
-                opt = opt[2][0]
-            return ('delivered', (idt, opt, rest[1][1] if rest[0] == 'tuple' else None))
-        return ('?', absx.fmt(v)[:60])
-    n = 0
-    for name, tree, want_id, with_ctrls in good:
-        n += 1
-        got = decide(tree)
-        ok = got[0] == 'delivered' and got[1][0] in (('lit', want_id), ('cast', ('lit', want_id), 'i32')) and got[1][1] == OP and \
-            ((got[1][2] == ('vec', ())) != with_ctrls)
-        ctx.add('H8.well-formed-envelope-is-delivered', name, loc(B.root), ok,
-                'a well-formed LDAPMessage (%s) is not delivered with the message ID %d and the operation element it holds: %s'
-                % (name, want_id, got[0] if got[0] != 'delivered' else 'delivered as (%s, %s, %s)' % (absx.fmt(got[1][0])[:20], 'the operation' if got[1][1] == OP else absx.fmt(got[1][1])[:40], absx.fmt(got[1][2])[:30])))
-    for name, tree in bad:
-        n += 1
-        got = decide(tree)
-        ctx.add('H8.malformed-envelope-is-a-decoding-error', name, loc(B.root), got[0] == 'error',
-                'an element that is not a well-formed LDAPMessage envelope (%s) must end the connection with a decoding error; the frame decoder answers: %s%s'
-                % (name, got[0], (' - as message ID %s' % absx.fmt(got[1][0])[:20]) if got[0] == 'delivered' else (' ' + got[1] if got[1] else '')))
-    ctx.floor('H8', 'literal envelope trees the frame decoder was interpreted on', n, 30)
+    makes of an element the TLV parser hands it is decided by exact interpretation of the decoder on element trees
+    (rules/envelope.py) - the parser's answer fixed to one tree at a time, the accessors of the tree type (match_class / match_id /
+    expect_*) and the unsigned reader inlined, the element vector tracked exactly.  The trees are a well-formed envelope (RFC 4511
+    4.1.1: a universal constructed SEQUENCE of messageID INTEGER (0..maxInt), protocolOp, controls [0] OPTIONAL - with no, an
+    empty, one, two and any controls, any operation, any ID content) and its single-field mutations: the outer element's class, tag
+    number and form; an element in front of the message ID; the message ID missing, of another class, tag or form, empty, negative or
+    too wide; a primitive, a second or a misplaced controls element; some other element after the operation.  A well-formed envelope
+    must be delivered with the ID, the operation element and the controls it holds; every mutation must be answered with an error -
+    not delivered, not answered with "need more" (the frame is complete), not a panic.  H6 (a guard the panic cone leans on):
+    wherever the control-list decoder is called on the way, it is handed a constructed element."""
+    import envelope
+    envelope.check(ctx, f, dp, {'good': 'H8.well-formed-envelope-is-delivered', 'bad': 'H8.malformed-envelope-is-a-decoding-error',
+                                'tolerated': 'H8.tolerated-deviation-is-delivered-or-refused', 'guard': 'H6.guards-of-reviewed-sources.control-decoder-gets-a-constructed-element'})
 
 
 def run(ctx):
